@@ -58,7 +58,7 @@ class Diag:
         return f"{self.unit}.{fn}.{self.kind}.{label}"
 
 
-def run_verus(unit, path, rlimit=None, timeout=1800, extra=None):
+def run_verus(unit, path, rlimit=None, timeout=600, extra=None):
     """returns dict(ok, diags=[Diag], undecided=[str], times, nfuncs, raw)"""
     cmd = ["verus", path, "--output-json", "--time", "--multiple-errors", "10"]
     if rlimit:
